@@ -100,7 +100,7 @@ def extra_id_stress(tier, seed):
 def extra_config_probe(tier, seed):
     """C09: the process-wide default capacity, probed in fresh subprocesses (real vs model)."""
     bins = vlib.build_harness((), bins=("director", "config_probe"))
-    seqs = ["-", "0", "5", "0,5,7", "3,3", "1", "7,0,2"]
+    seqs = ["-", "0", "5", "0,5,7", "3,3", "1", "7,0,2", "s,2", "s,0,3,4", "2,s,5"]
     if tier == "thorough":
         seqs += ["2", "4,4,4", "0,0,9", "64", "33"]
     viol, rows = [], []
